@@ -221,6 +221,9 @@ func noMapOrderRule(P *Program, R *Report, rule string) {
 								if appendRootsInside(l, y.Call.Args[0], nil, map[ssa.Value]bool{}) {
 									continue // slice restarts in every iteration of the map loop
 								}
+								if sortedAfterLoop(P, fn, l, y) {
+									continue // collected keys are sorted before use
+								}
 								offenders = append(offenders, "append to "+base+" at "+P.Pos(y.Pos()))
 							}
 						case *ssa.Store:
@@ -437,4 +440,53 @@ func appendRootsInside(l *Loop, v ssa.Value, via *ssa.Phi, seen map[ssa.Value]bo
 		return l.Body[x.Block()] && x.Block() != l.Header
 	}
 	return false
+}
+
+// sortedAfterLoop: the slice accumulated in the map loop is passed to a sort function after the loop,
+// and every later use of it is dominated by that sort.
+func sortedAfterLoop(P *Program, fn *ssa.Function, l *Loop, app *ssa.Call) bool {
+	sorted := false
+	allInstrs(fn, func(i ssa.Instruction) {
+		c, ok := i.(*ssa.Call)
+		if !ok || l.Body[c.Block()] {
+			return
+		}
+		switch calleeName(c) {
+		case "sort.Ints", "sort.Strings", "slices.Sort", "sort.Slice", "sort.SliceStable", "slices.SortFunc":
+		default:
+			return
+		}
+		if deps(P, c.Call.Args[0])[app] {
+			// the sort must dominate every other use of the accumulated slice outside the loop
+			ok := true
+			arg := c.Call.Args[0]
+			for _, r := range referrersOf(arg) {
+				if r == ssa.Instruction(c) || l.Body[r.Block()] {
+					continue
+				}
+				if _, isDbg := r.(*ssa.DebugRef); isDbg {
+					continue
+				}
+				if !(c.Block().Dominates(r.Block())) {
+					ok = false
+				}
+				if c.Block() == r.Block() {
+					// same block: sort must come first
+					for _, ins := range c.Block().Instrs {
+						if ins == r {
+							ok = false
+							break
+						}
+						if ins == ssa.Instruction(c) {
+							break
+						}
+					}
+				}
+			}
+			if ok {
+				sorted = true
+			}
+		}
+	})
+	return sorted
 }
